@@ -28,7 +28,9 @@
 (***************************************************************************)
 EXTENDS Integers, Sequences, FiniteSets, TLC, Json
 
-CONSTANTS FixU1,         \* TRUE = character ranges converted to byte columns (repaired), FALSE = compared as they are
+CONSTANTS GenLen,        \* 0: Init enumerates every script (exhaustive mode); n > 0: scripts of n ops are grown step
+                         \* by step (GenOp, GenPlace) so that `tlc -simulate` draws long random scripts
+          FixU1,         \* TRUE = character ranges converted to byte columns (repaired), FALSE = compared as they are
           MaxOps,        \* maximal length of the edit script
           MaxBlocks,     \* 1 or 2 blocks per file
           Layouts,       \* subset of {"line", "inline", "cont"}
@@ -166,7 +168,26 @@ WithKinds(o, p) == {[ps |-> p.ps, pe |-> p.pe, lay |-> p.lay, ks |-> x, ke |-> y
                       z \in (IF p.lay = "mltag" /\ o[p.ps + 1] = "M" THEN KindsC(p.lay) ELSE {"-"})}
 Candidates(o) == UNION {WithKinds(o, p) : p \in Placements(o)}
 
+\* ---- generation mode (simulation of long scripts) ----
+GenInit == /\ ops = <<>> /\ blocks = <<>> /\ dl = <<>>
+           /\ i = 1 /\ q = <<>> /\ prevAdded = FALSE /\ lastTgt = 0 /\ changes = <<>> /\ pc = "gen"
+GenOp == /\ pc = "gen" /\ Len(ops) < GenLen
+         /\ \E x \in {"K", "D", "I"} : ops' = Append(ops, x)
+         /\ UNCHANGED <<blocks, dl, i, q, prevAdded, lastTgt, changes, pc>>
+\* place one or two blocks on lines the script keeps or inserts; some kept tag lines become M ops with a kind
+GenPlace ==
+  /\ pc = "gen" /\ Len(ops) = GenLen /\ \E k \in 1..Len(ops) : ops[k] # "K"
+  /\ \E p \in Placements(ops) : \E ms \in SUBSET ({p.ps, p.pe} \cup (IF p.lay = "mltag" THEN {p.ps + 1} ELSE {})) :
+       LET o2 == [k \in 1..Len(ops) |-> IF k \in ms /\ ops[k] = "K" THEN "M" ELSE ops[k]] IN
+       /\ ops' = o2
+       /\ \E b \in WithKinds(o2, p) :
+             \/ blocks' = <<b>>
+             \/ (MaxBlocks >= 2 /\ \E b2 \in {x \in Candidates(o2) : Compatible(b, x)} : blocks' = <<b, b2>>)
+       /\ dl' = Build(o2)
+  /\ pc' = "walk" /\ UNCHANGED <<i, q, prevAdded, lastTgt, changes>>
+
 Init ==
+  IF GenLen > 0 THEN GenInit ELSE
   /\ ops \in UNION {[1..n -> {"K", "D", "I", "M"}] : n \in 2..MaxOps}
   /\ LET W == Candidates(ops) IN
      blocks \in {<<b>> : b \in W}
@@ -223,7 +244,7 @@ WalkDone ==
   /\ pc = "walk" /\ i > Len(dl)
   /\ pc' = "done" /\ UNCHANGED <<ops, blocks, dl, i, q, prevAdded, lastTgt, changes>>
 
-Next == StepRemoved \/ StepAdded \/ StepSep \/ StepOther \/ WalkDone
+Next == GenOp \/ GenPlace \/ StepRemoved \/ StepAdded \/ StepSep \/ StepOther \/ WalkDone
 
 Spec == Init /\ [][Next]_vars /\ WF_vars(Next)
 
@@ -389,7 +410,7 @@ QueueOnlyHoldsRemoved == \A k \in 1..Len(q) : q[k].t = "-"
 ChangesGrowOnly == [][Len(changes') >= Len(changes)]_vars
 QueueEmptyAtDone == Done => q = <<>>
 StepwiseEqualsRecursive == Done => changes = Walk(dl, blocks, FixDV1, FixDV2)
-TypeOK == /\ i \in 1..(Len(dl) + 1) /\ pc \in {"walk", "done"} /\ prevAdded \in BOOLEAN
+TypeOK == /\ i \in 1..(Len(dl) + 1) /\ pc \in {"gen", "walk", "done"} /\ prevAdded \in BOOLEAN
 
 Terminates == <>Done
 
